@@ -15,6 +15,11 @@ class RegexConst:
     def __repr__(self): return 'RegexConst(%r)' % self.pattern
 
 
+class ObjConst:
+    """an object seen only through its class-level constants (self.X where X is assigned a constant in the class body)"""
+    def __init__(self, attrs): self.attrs = attrs
+
+
 class FuncConst:
     def __init__(self, node, env): self.node = node; self.env = env
 
@@ -46,8 +51,9 @@ class LazyImport:
         self.level = level; self.module = module; self.name = name
 
 
-import decimal as _decimal, math as _math, fractions as _fractions
+import decimal as _decimal, math as _math, fractions as _fractions, datetime as _datetime
 PURE_EXTERNAL = {
+    ('datetime', 'date'): _datetime.date, ('datetime', 'timedelta'): _datetime.timedelta,
     ('decimal', 'Decimal'): _decimal.Decimal,
     ('fractions', 'Fraction'): _fractions.Fraction,
     ('math', 'floor'): _math.floor, ('math', 'ceil'): _math.ceil, ('math', 'sqrt'): _math.sqrt,
@@ -152,6 +158,9 @@ class Folder:
         if isinstance(st, ast.Raise):
             raise _Raise()
         if isinstance(st, ast.Pass): return
+        if isinstance(st, ast.Assert):
+            if not self.expr(st.test, env): raise _Raise()
+            return
         if isinstance(st, ast.Try) and not st.finalbody:
             # a raise in the body (explicit, or a Python error of a pure operation) is taken by the first handler
             try:
@@ -262,6 +271,10 @@ class Folder:
         out = {}; self.comp(e.generators, env, lambda en: out.__setitem__(self.expr(e.key, en), self.expr(e.value, en))); return out
     def e_Attribute(self, e, env):
         v = self.expr(e.value, env)
+        if isinstance(v, _datetime.date) and e.attr in ('year', 'month', 'day'): return getattr(v, e.attr)
+        if isinstance(v, ObjConst):
+            if e.attr in v.attrs: return v.attrs[e.attr]
+            raise Unfoldable('attribute %s of the object' % e.attr)
         if isinstance(v, RegexConst) and e.attr in ('pattern', 'flags'): return getattr(v, e.attr)
         if isinstance(v, RegexConst) and e.attr in ('match', 'search', 'fullmatch'): return ('rxbound', v, e.attr)
         if isinstance(v, re.Match) and e.attr in ('group', 'groups', 'groupdict', 'span', 'start', 'end'): return ('mbound', v, e.attr)
